@@ -153,3 +153,47 @@ package socks5
 //@ modifies *
 
 //@ census[C23] Dialer.DialContext in (*Handler).handleConnect
+
+// ---- C22: a UDP association relays only for the client that owns it ----
+//
+// Chain: (1) ReadLoop hands a datagram to the mesh only after acceptSender
+// returned true for the address this very datagram came from; (2) acceptSender
+// returns true only for a sender that equals the recorded client address, and
+// it records an address only if none was recorded and the sender matches the
+// owner named in the ASSOCIATE request (IP, and port when given) or, when the
+// request named nobody, the IP of the TCP control connection; a recorded
+// address is never replaced; (3) nothing else writes ActualClientAddr;
+// (4) WriteToClient sends only to the recorded address.
+
+//@ guarded UDPAssociation.mu: ActualClientAddr, ExpectedClientAddr, StreamID
+
+//@ func (*UDPAssociation).acceptSender
+//@ prop C22
+//@ check lockset
+//@ modifies a.ActualClientAddr
+//@ ensures result ==> src != nil && a.ActualClientAddr != nil
+//@ ensures result ==> a.ActualClientAddr == src || (src.Port == a.ActualClientAddr.Port && ipEq(src.IP, a.ActualClientAddr.IP))
+//@ ensures old(a.ActualClientAddr) != nil ==> a.ActualClientAddr == old(a.ActualClientAddr)
+//@ ensures !result ==> a.ActualClientAddr == old(a.ActualClientAddr)
+//@ ensures a.ActualClientAddr != old(a.ActualClientAddr) ==> a.ActualClientAddr == src
+//@ ensures a.ActualClientAddr != old(a.ActualClientAddr) && a.ExpectedClientAddr != nil && a.ExpectedClientAddr.IP != nil && !ipUnspec(a.ExpectedClientAddr.IP) ==> ipEq(src.IP, a.ExpectedClientAddr.IP) && (a.ExpectedClientAddr.Port != 0 ==> src.Port == a.ExpectedClientAddr.Port)
+//@ ensures a.ActualClientAddr != old(a.ActualClientAddr) && !(a.ExpectedClientAddr != nil && a.ExpectedClientAddr.IP != nil && !ipUnspec(a.ExpectedClientAddr.IP)) && a.TCPConn != nil && istype(remoteOf(a.TCPConn), *net.TCPAddr) ==> ipEq(src.IP, ifaceval(remoteOf(a.TCPConn), *net.TCPAddr).IP)
+
+//@ func (*UDPAssociation).ReadLoop
+//@ prop C22
+//@ check lockset
+//@ modifies *
+//@ after call ReadFromUDP let dgramSrc = $ret1
+//@ after call acceptSender let accepted = $ret
+//@ after call acceptSender let acceptedSrc = $1
+//@ at call UDPAssociationHandler.RelayUDPDatagram assert accepted && acceptedSrc == dgramSrc
+
+//@ func (*UDPAssociation).WriteToClient
+//@ prop C22
+//@ check lockset
+//@ modifies *
+//@ at call WriteToUDP assert $2 == a.ActualClientAddr && $2 != nil
+
+//@ fieldwritesonly[C22] UDPAssociation.ActualClientAddr: (*UDPAssociation).acceptSender
+//@ census[C22] UDPAssociationHandler.RelayUDPDatagram in (*UDPAssociation).ReadLoop
+//@ census[C22] WriteToUDP in (*UDPAssociation).WriteToClient
